@@ -91,8 +91,7 @@ def outer_clauses(chk, F, which):
     I = Interp(F)
     d_outs = I.run(hit[0], [], hit[1]) if hit else []
     dval = d_outs[0].value if len(d_outs) == 1 and d_outs[0].kind == 'return' else None
-    darr = dval.fields[model.ai] if isinstance(dval, Ag) and len(dval.fields) > model.ai else None
-    delem = darr.elems[0] if isinstance(darr, Ar) else None
+    delem = model.elem(dval, 0) if model.arrays_ok(dval) else None
     # ---- outer reset from an arbitrary (not only reachable) scanner
     key = '%s/outer-reset/%s/%s' % (PID, cfg, which)
 
@@ -107,10 +106,8 @@ def outer_clauses(chk, F, which):
             I = Interp(F)
             st = I.new_state()
             selfv = I.top_of(st, model.outer_ty, 'scanner')
-            arr_b = selfv.fields[model.ai]
-            fields = list(selfv.fields)
-            fields[model.ai] = Ar([arr_b.elems[i] if i == j else delem for i in range(16)])
-            selfv = Ag(selfv.path, selfv.variant, fields)
+            for ap in model.arrays:
+                selfv = model.put(selfv, ap, Ar([model.get(selfv, ap).elems[i] if i == j else model.get(dval, ap).elems[i] for i in range(16)]))
             st.root().locals['self'] = selfv
             outs = I.run(model.methods['reset'][0], [Rf(0, 'self', (), True)], [], st)
             outs = [o for o in outs if o.kind != 'dead']
@@ -118,23 +115,23 @@ def outer_clauses(chk, F, which):
                 return chk.ob(key, 'outer reset covers every element', 'unproven' if not any(o.kind == 'panic' for o in outs) else 'refuted',
                               subject=fn_subject(F, model.methods['reset'][0]), why='element %d arbitrary: outcomes %r' % (j, sorted(set((o.kind, o.why) for o in outs))[:3]))
             shared_b = set()
-            for i in model.extra:
-                shared_b |= opaque_tokens(selfv.fields[i])
+            for ep in model.extra:
+                shared_b |= opaque_tokens(model.get(selfv, ep))
             for o in outs:
                 after = o.st.root().locals['self']
-                arr_a = after.fields[model.ai] if isinstance(after, Ag) and len(after.fields) > model.ai else None
-                if not isinstance(arr_a, Ar) or len(arr_a.elems) != 16:
-                    return chk.ob(key, 'outer reset covers every element', 'unproven', why='array shape %r' % (arr_a,))
-                for i, a in enumerate(arr_a.elems):
-                    b = selfv.fields[model.ai].elems[i]
+                if not model.arrays_ok(after):
+                    return chk.ob(key, 'outer reset covers every element', 'unproven', why='array shape %r' % (after,))
+                for i in range(16):
+                    a = model.elem(after, i)
+                    b = model.elem(selfv, i)
                     if _wild(a) != _wild(delem):
                         status, why = 'refuted', 'element %d after reset is %r, a new element is %r' % (i, a, delem)
                     elif not opaque_tokens(a) <= (opaque_tokens(b) | shared_b):
                         status, why = 'refuted', 'element %d after reset holds a timeout / time value %r that it did not hold before' % (i, sorted(opaque_tokens(a) - opaque_tokens(b)))
-                for i in model.extra:
-                    fb, fa = selfv.fields[i], after.fields[i]
-                    if val_key(fa) != val_key(fb) and (opaque_tokens(fa) or dval is None or val_key(fa) != val_key(dval.fields[i])):
-                        status, why = 'refuted', 'field %s after reset is %r (neither kept nor the value of a new scanner)' % (model.fields[i]['name'], fa)
+                for ep in model.extra:
+                    fb, fa = model.get(selfv, ep), model.get(after, ep)
+                    if val_key(fa) != val_key(fb) and (opaque_tokens(fa) or dval is None or val_key(fa) != val_key(model.get(dval, ep))):
+                        status, why = 'refuted', 'field %s after reset is %r (neither kept nor the value of a new scanner)' % (model.leaf_name[ep], fa)
         chk.ob(key, 'outer reset covers every element', status, subject=fn_subject(F, model.methods['reset'][0]),
                expected='each element in turn in an arbitrary state: all 16 elements equal to a new element afterwards (timeouts kept)',
                found='16 x 16 elements compared', why=why)
